@@ -61,6 +61,8 @@ def list_cases(draw, tier):
 def check_list(config, gen, codec, msgs, blocked, api):
     f = io.BytesIO()
     kw = dict(encoding=codec, blocked=blocked)
+    if codec == 'latin_1' and len(msgs) % 2:
+        del kw['encoding']          # latin_1 is the documented default: rely on it for half of those cases
     if gen:
         kw['iso_config'] = config
     try:
